@@ -313,7 +313,7 @@ func histOf(ac *authConn, upto int) []string {
 func init() {
 	register(&Check{
 		ID: "C08", Bubble: true, Run: runC08,
-		Runs:   map[string]int{"quick": 4000, "thorough": 300000},
+		Runs:   map[string]int{"quick": 30000, "thorough": 1000000},
 		Rule:   "a case is one run of the full server with a required password (set before Start, or by Restart after a password-less generation) and 1..3 connections each sending 1..8 (thorough ..16) requests over {AUTH with the exact password, with each dictionary candidate ('' , prefixes, extension, case swap, NUL/CRLF/space variants, doubled), null/missing argument, two-argument forms, SELECT, CONFIG SET/GET, PING/ECHO, data commands} under a seeded request- and byte-granularity interleaving; a per-connection authorization model is checked inside every handler call and over every reply; distinct = distinct event-log hashes; all runs non-trivial",
 		Real:   []string{"redis.Server Start (authenticator registration), accept loop, connection goroutines, AUTH executor, Server.Auth, auth.AuthManager, ClearTextPasswordAuthenticator, gate in executeCommand"},
 		Stub:   []string{"network: simulated", "user command handler: recording double (parks at entry)"},
